@@ -126,9 +126,16 @@ static pboolean visit (ppointer key, ppointer value, ppointer data) {
 
 /* one-shot allocation failure (op `insf`): the next p_malloc of the library returns NULL */
 static int fail_next;
-static ppointer f_malloc (psize n) { if (fail_next) { fail_next = 0; return NULL; } return malloc (n); }
+static long live_blocks;   /* blocks the library holds (op `newf` prints what the failed creation left allocated) */
+static ppointer f_malloc (psize n) { if (fail_next) { fail_next = 0; return NULL; } ++live_blocks; return malloc (n); }
+/* the library reports a failed allocation of p_tree_new_full with a P_ERROR line on stdout: not part of the protocol */
+#include <unistd.h>
+#include <fcntl.h>
+static int saved_out = -1;
+static void mute (void) { fflush (stdout); saved_out = dup (1); int nul = open ("/dev/null", O_WRONLY); dup2 (nul, 1); close (nul); }
+static void unmute (void) { fflush (stdout); dup2 (saved_out, 1); close (saved_out); saved_out = -1; }
 static ppointer f_realloc (ppointer p, psize n) { return realloc (p, n); }
-static void f_free (ppointer p) { free (p); }
+static void f_free (ppointer p) { if (p) --live_blocks; free (p); }
 
 int main (void) {
 	char line[256], op[16], a1[32], a2[32], a3[32];
@@ -140,7 +147,9 @@ int main (void) {
 		int n = sscanf (line, "%15s %31s %31s %31s", op, a1, a2, a3);
 		if (n < 1) continue;
 		dlen = 0; dlog[0] = 0;
-		if (!strcmp (op, "new")) {
+		if (!strcmp (op, "new") || !strcmp (op, "newf")) {
+			/* `newf`: the same creation call while the allocator is out of memory: must give NULL (no tree until the next `new`) */
+			int oom = op[3] == 'f';
 			drop_tree ();
 			plain = konly = vonly = withdata = wide = 0; null_key.ord = 0;
 			{
@@ -156,10 +165,13 @@ int main (void) {
 			next_id = 0;
 			PTreeType ty = !strcmp (a1, "bst") ? P_TREE_TYPE_BINARY : !strcmp (a1, "rb") ? P_TREE_TYPE_RB : P_TREE_TYPE_AVL;
 			type = (int) ty;
+			long before = live_blocks;
+			if (oom) { mute (); fail_next = 1; }
 			if (plain && !withdata) tree = p_tree_new (ty, cmp_plain);
 			else if (plain) tree = p_tree_new_with_data (ty, cmp_data, &data_cookie);
 			else tree = p_tree_new_full (ty, cmp_data, withdata ? &data_cookie : NULL, vonly ? NULL : key_destroy, konly ? NULL : val_destroy);
-			puts (tree ? "ok" : "fail");
+			if (oom) { fail_next = 0; unmute (); printf ("%s held=%ld\n", tree ? "ok" : "fail", live_blocks - before); }
+			else puts (tree ? "ok" : "fail");
 		} else if (!tree) puts ("bad-op");
 		else if (!strcmp (op, "ins") && n == 2) {
 			int o = atoi (a1);
